@@ -1,5 +1,6 @@
 import Driver.Util
 import Crusta.Spec.Oracle
+import Driver.Enc
 
 open Crusta Driver
 
@@ -167,6 +168,7 @@ def main : IO Unit := do
     let out := match c.family with
       | "store" => runStore c
       | "solve" => runSolve c
+      | "enc" => runEnc c.lines
       | f => [s!"verdict BAD unknown family {f}"]
     for l in out do stdout.putStrLn l
     stdout.putStrLn "end"
